@@ -235,7 +235,9 @@ JudgeHash(ev) ==
               \cup (IF C_Literal(ev) THEN {} ELSE {V("C10", "Literal")})
               \cup (IF C18_CanHash(ev) THEN {} ELSE {V("C18", "CanHash")})
               \cup (IF C02_Released(ev) THEN {} ELSE {V("C02", "Released")})
-              \cup (IF AnyFault(ev) /\ ~C_Balanced(ev) THEN {V("C15", "Balanced")} ELSE {})
+              \* (also without a fault, whenever the call made mapping requests: what it mapped is unmapped when it returns)
+              \cup (IF (AnyFault(ev) \/ \E i \in 1..Len(ev.led) : ev.led[i].op \in {"H", "M"}) /\ ~C_Balanced(ev)
+                    THEN {V("C15", "Balanced")} ELSE {})
       \* vacuity guard: the predicates whose antecedent holds on this call (counted in cnt.ant, reported as evidence;
       \* a check whose own predicate was never exercised is broken, tools/props.py REQUIRED_ANTS)
       ants == (IF MustFail(c) THEN {"FailClosed"} ELSE {})
